@@ -150,7 +150,8 @@ PROPS = {
         title="Independence of hasher, collisions, addresses",
         modules=["Caches.Properties.C17"],
         suites=[s("rawlru", 40, 800, clone=10, bigcap=1, resize=4), s("slru", 24, 600, clone=10), s("twoq", 20, 600), s("arc", 20, 600), s("wtinylfu", 20, 600)],
-        fields={"result", "state", "panic"},
+        # the order in which the eviction callback is notified is behaviour too (`cb`): purge / resize must not walk the hash map
+        fields={"result", "state", "panic", "cb"},
         monitor="C17",
         variants="keys_hashers",
         design="6/C17",
